@@ -30,7 +30,7 @@ func vfPauseScenarios() []vfScenario {
 	add := func(name string, cfg vfCfg, tops []string, specs []vfFileSpec) {
 		cfg.Quiet = false
 		cfg.Timeout = 3
-		sc = append(sc, vfScenario{name, cfg, tops, specs})
+		sc = append(sc, vfScenario{Name: name, Cfg: cfg, Tops: tops, Specs: specs})
 	}
 	add("up-p4", vfCfg{Dir: "up", Direct: true, Bufsize: 8192}, []string{"first.bin", "second.bin", "third.txt"}, files)
 	add("down-p4", vfCfg{Dir: "down", Direct: true, Bufsize: 8192}, []string{"first.bin", "second.bin", "third.txt"}, files)
